@@ -17,6 +17,8 @@ pub mod c13;
 pub mod c16;
 pub mod c18;
 pub mod bessel;
+pub mod bytesde;
+pub mod fuzzsupport;
 pub mod common;
 pub mod engine;
 pub mod prog;
